@@ -208,6 +208,25 @@ func (c *checker) liveOverlay(v *preconfirmed.ChainReader, entries []*pending.Pr
 	// for every slot except the newest one (whose classes arrive with its next poll). Independently of what the
 	// implementation registered: every class declared by the state diff of a slot BELOW the view's tip must have its
 	// definition on that slot (otherwise Class(hash) through the view falls back to the canonical base = not found).
+	// ... and the converse, for every slot: a definition registered on a slot must be that of a class the slot's own state
+	// diff declares (a definition left over from a discarded round of the slot would make the view resolve a class that
+	// neither the canonical base nor any state diff of the view knows).
+	for _, e := range entries {
+		if e.StateUpdate == nil || e.StateUpdate.StateDiff == nil {
+			continue
+		}
+		for h := range e.NewClasses {
+			_, v1 := e.StateUpdate.StateDiff.DeclaredV1Classes[h]
+			v0 := false
+			for _, d := range e.StateUpdate.StateDiff.DeclaredV0Classes {
+				v0 = v0 || d.Equal(&h)
+			}
+			if !v1 && !v0 {
+				viol("class definition registered on a slot whose state diff does not declare it", map[string]any{"block": e.Block.Number, "class": h.String(),
+					"slot_identifier": e.BlockIdentifier})
+			}
+		}
+	}
 	for j, e := range entries {
 		if j == len(entries)-1 || e.StateUpdate == nil || e.StateUpdate.StateDiff == nil {
 			continue
@@ -272,12 +291,15 @@ func (e *benv) seqMove(m string) {
 }
 
 // runScenario executes one environment sequence against a fresh node + poller in its own bubble.
-func runScenario(t *testing.T, r *ev.Run, chk *checker, mainCh []*chain.Entry, classes map[felt.Felt]core.ClassDefinition, steps []string, nb int, stats *bStats) {
+func runScenario(t *testing.T, r *ev.Run, chk *checker, mainCh []*chain.Entry, classes map[felt.Felt]core.ClassDefinition, steps []string, nb int, stats *bStats, initCnt int) {
 	synctest.Test(t, func(t *testing.T) {
 		d := memory.New()
 		bc := chain.NewNode(d, nb == 1)
 		e := &benv{r: r, chk: chk, mainCh: mainCh, height: -1, nb: nb, seen: map[uint64]bool{}, classes: classes, stats: stats,
-			seq: seqModel{latest: 3, blocks: map[uint64]round{3: {0, 1}}}}
+			seq: seqModel{latest: 3, blocks: map[uint64]round{3: {0, initCnt}}}}
+		if initCnt != 1 {
+			e.trace = append(e.trace, fmt.Sprintf("[sequencer's first block already has %d transactions: its round declares a class]", initCnt))
+		}
 		e.bc = &canon{name: "live"}
 		e.bc.bc[nb] = bc
 		for i := 0; i < 3; i++ {
@@ -363,7 +385,13 @@ func pollerHarness(t *testing.T, r *ev.Run, canons []*canon) {
 			skipped.Add(1)
 			return
 		}
-		runScenario(t, r, chk, mainCh, classes, scen[i], i%2, stats)
+		runScenario(t, r, chk, mainCh, classes, scen[i], i%2, stats, 1)
+		// the same sequence with a first pre-confirmed block whose round already declares a class (tx k=1): what the
+		// poller keeps / drops of a slot's classes when the slot is re-polled, replaced by a new round or left behind
+		// is then exercised by the shortest sequences
+		if first := scen[i][0]; first == "newround" || first == "nextblock" || first == "jump2" || r.Thorough() {
+			runScenario(t, r, chk, mainCh, classes, scen[i], (i+1)%2, stats, 2)
+		}
 	})
 	if n := skipped.Load(); n > 0 {
 		r.Incomplete(fmt.Sprintf("harness B: %d of the length-%d scenarios not run (time or memory budget)", n, maxLen))
